@@ -2070,6 +2070,10 @@ func (self *Aof) loadRewriteAofFiles(aofFilenames []string) (*AofFile, []*AofFil
 		lockCommand.Expried = self.GetLockCommandExpriedTime(db, aofLock)
 		lockCommand.Count = aofLock.Count
 		lockCommand.Rcount = aofLock.Rcount
+		lockCommand.TimeoutFlag = 0
+		if aofLock.AofFlag&AOF_FLAG_RCOUNT_IS_PRIORITY != 0 {
+			lockCommand.TimeoutFlag |= protocol.TIMEOUT_FLAG_RCOUNT_IS_PRIORITY
+		}
 		if !db.HasLock(lockCommand, aofLock.data) {
 			return true, nil
 		}
